@@ -264,6 +264,15 @@ pub fn bias_specials(r: &mut StdRng) -> Vec<Message> {
             }
         }
     }
+    // very many entries for ONE satellite (repeated signals): the per-satellite count must not wrap silently or panic
+    for (num, table) in [(1059u16, SSR_GPS.to_vec()), (1065u16, SSR_GLO.to_vec())] {
+        for total in [32usize, 33, 255, 256, 257, 288, 390] {
+            let e: Vec<(u8, u8, char, f32)> = (0..total).map(|j| (9u8, table[j % table.len()].0, table[j % table.len()].1, (j as f32 - 50.0) * 0.01)).collect();
+            if let Ok(m) = bias_message(r, num, &e) {
+                out.push(m);
+            }
+        }
+    }
     // out-of-range satellite, unrecognised signal
     for e in [vec![(64u8, 1u8, 'C', 0.0f32)], vec![(200, 1, 'C', 0.0)], vec![(3, 9, 'Z', 0.5)]] {
         if let Ok(m) = bias_message(r, 1059, &e) {
